@@ -2,7 +2,7 @@
 
 Correspondence: the real qmi.core.transport.QMI_TcpTransport / QMI_UdpTransport /
 QMI_SerialTransport are driven through open / close / read / read_until / read_until_timeout /
-discard_read with a scripted socket / serial.Serial stand-in and a virtual time.monotonic (only the
+discard_read / write with a scripted socket / serial.Serial stand-in and a virtual time.monotonic (only the
 names `socket`, `serial`, `time` as seen from qmi.core.transport are replaced).  The Coq model
 (theories/C13/Model.v) gets the same device script and call sequence and must produce, per call,
 the same bytes / exception class and the same calls on the stand-in (including the settimeout
@@ -47,6 +47,16 @@ class Dev:
         self.handed = bytearray()    # bytes that reached the transport, in order
         self.pend = bytearray()      # serial: arrived at the port, not yet read
         self.blocking = False        # serial: current API call has timeout None
+        self.deadline = None         # clock value at which the current API call's timeout expires
+        self.marks = []              # "at" / "after": data handed over exactly at / after the deadline
+        self.kind = "tcp" if stream_mode else "udp"
+
+    def mark(self, data):
+        if data and self.deadline is not None:
+            if self.clock == self.deadline:
+                self.marks.append("at")
+            elif self.clock > self.deadline:
+                self.marks.append("after")
 
     def next_event(self, tmo=None):
         if self.front is not None:
@@ -170,11 +180,27 @@ class FakeSocket:
             if rest:
                 d.front = ("C", rest, 0)
             d.handed += out
+            d.mark(out)
             return out
         if len(bs) <= size:
             d.handed += bs
+            d.mark(bs)
             return bs
         raise OSError("datagram larger than buffer")   # the datagram is lost
+
+    # sending: sendall is the TCP call, sendto(data, transport address) the UDP call
+    def sendall(self, data):
+        self.dev.log.append(("send", list(data)) if self.dev.kind == "tcp" else ("wrong-send-call", "sendall"))
+
+    def sendto(self, data, addr):
+        ok = self.dev.kind == "udp" and tuple(addr) == ("10.0.0.1", 5000)
+        self.dev.log.append(("send", list(data)) if ok else ("wrong-send-call", "sendto %r" % (addr,)))
+        return len(data)
+
+    def send(self, data):
+        part = bytes(data)[:max(1, len(data) // 2)]      # a plain send() may be partial
+        self.dev.log.append(("send", list(part)))
+        return len(part)
 
     def recvfrom(self, size):
         self.dev.log.append(("recvfrom", size))
@@ -226,6 +252,7 @@ class FakeSerial:
         out = bytes(d.pend[:k])
         del d.pend[:k]
         d.handed += out
+        d.mark(out)
         return out
 
     def reset_input_buffer(self):
@@ -237,7 +264,8 @@ class FakeSerial:
         self.dev.log.append(("close",))
 
     def write(self, data):
-        self.dev.log.append(("write", len(data)))
+        self.dev.log.append(("send", list(data)))
+        return len(data)
 
 
 class _Patched:
@@ -283,9 +311,11 @@ EXC = {"QMI_InvalidOperationException": "invalid", "QMI_TimeoutException": "time
 
 def impl_run(kind, events, ops, t0=T0, dev=None):
     """Drive the real transport class.  Returns per call:
-    (result, calls on the stand-in, transport buffer after the call, #bytes handed so far)."""
+    (result, calls on the stand-in, transport buffer after the call, #bytes handed so far,
+    deadline marks)."""
     if dev is None:
         dev = Dev(events, stream_mode=(kind == "tcp"), t0=t0)
+    dev.kind = kind
     obs = []
     with _Patched(dev) as tr:
         if kind == "tcp":
@@ -296,8 +326,10 @@ def impl_run(kind, events, ops, t0=T0, dev=None):
             t = tr.QMI_SerialTransport("/dev/ttyS0", 9600)
         for o in ops:
             dev.log = []
+            dev.marks = []
             dev.blocking = (len(o) > 2 and o[2] is None)
             tmo = None if (len(o) < 3 or o[2] is None) else float(o[2])
+            dev.deadline = None if tmo is None else dev.clock + int(tmo)
             try:
                 if o[0] == "open":
                     r = t.open()
@@ -311,6 +343,8 @@ def impl_run(kind, events, ops, t0=T0, dev=None):
                     r = t.read_until_timeout(o[1], tmo)
                 elif o[0] == "discard":
                     r = t.discard_read()
+                elif o[0] == "write":
+                    r = t.write(bytes(o[1]))
                 else:
                     raise AssertionError(o)
                 if r is None:
@@ -324,7 +358,7 @@ def impl_run(kind, events, ops, t0=T0, dev=None):
             except Exception as e:  # noqa
                 n = type(e).__name__
                 res = (EXC[n],) if n in EXC else ("other", n)
-            obs.append((res, list(dev.log), list(bytes(t._read_buffer)), len(dev.handed)))
+            obs.append((res, list(dev.log), list(bytes(t._read_buffer)), len(dev.handed), list(dev.marks)))
             if res[0] == "hang":
                 break
     return obs, bytes(dev.handed)
@@ -339,7 +373,8 @@ def oracle(kind, events, ops, obs, handed):
     bad = []
     acct = 0          # bytes of `handed` already returned to the caller or discarded
     is_open = False
-    for i, (o, (res, calls, bufafter, nh)) in enumerate(zip(ops, obs)):
+    sent, accepted = [], []
+    for i, (o, (res, calls, bufafter, nh, _marks)) in enumerate(zip(ops, obs)):
         name = {"rut": "read_until_timeout", "discard": "discard_read"}.get(o[0], o[0])
 
         def flag(what, detail=""):
@@ -348,6 +383,18 @@ def oracle(kind, events, ops, obs, handed):
         if res[0] == "other":
             flag("unexpected outcome", res[1])
             break
+        # write path: only write sends, exactly once, exactly the caller's bytes
+        sends = [c for c in calls if c[0] in ("send", "wrong-send-call")]
+        sent += sends
+        if o[0] == "write":
+            if res == ("none",):
+                accepted.append(("send", list(o[1])))
+                if sends != [("send", list(o[1]))]:
+                    flag("written bytes did not reach the device unchanged in one send call", repr(sends))
+            elif sends:
+                flag("refused write reached the device", repr(sends))
+        elif sends:
+            flag("an operation other than write sent data to the device", repr(sends))
         avail = bytes(handed[acct:nh])          # what the transport holds if nothing was lost
         before = bytes(handed[acct:obs[i - 1][3]]) if i > 0 else b""
         if not is_open:
@@ -377,6 +424,8 @@ def oracle(kind, events, ops, obs, handed):
                 is_open = False
             elif res == ("invalid",):
                 flag("operation on an open transport refused")
+            elif o[0] == "write" and res != ("none",):
+                flag("write on an open transport failed", repr(res))
         if res[0] == "bytes":
             r = bytes(res[1])
             if bytes(handed[acct:acct + len(r)]) != r:
@@ -406,6 +455,9 @@ def oracle(kind, events, ops, obs, handed):
             flag("buffer differs from the bytes received and not yet returned",
                  "buffer %r expected %r" % (bufafter, list(handed[acct:nh])))
             break
+    if sent != accepted and not any("write" in k or "sent data" in k for k, _ in bad):
+        bad.append(("oracle:%s:write:device did not receive exactly the accepted writes in order" % kind,
+                    "%s: sent %r, accepted writes %r" % (kind, sent, accepted)))
     return bad
 
 
@@ -436,6 +488,8 @@ def c_op(o):
         return "OpReadUntil %s %s" % (cbytes(o[1]), c_tmo(o[2]))
     if o[0] == "rut":
         return "OpRut %s %s" % (cN(o[1]), c_tmo(o[2]))
+    if o[0] == "write":
+        return "OpWrite %s" % cbytes(o[1])
     return "OpDiscard"
 
 
@@ -449,6 +503,8 @@ def c_res(r):
 def c_call(c):
     if c[0] == "settimeout":
         return "DSetTmo %s" % c_tmo(c[1])
+    if c[0] == "send":
+        return "DSend %s" % cbytes(c[1])
     if c[0] in ("recvfrom", "recv", "read"):
         return "%s %s" % ({"recvfrom": "DRecvFrom", "recv": "DRecv", "read": "DRead"}[c[0]], cN(c[1]))
     return {"open": "DOpen", "close": "DClose", "in_waiting": "DInWaiting", "reset": "DReset"}.get(c[0], "DRead 99999%N")
@@ -518,8 +574,8 @@ def gen_ops(rng, data, nops, wild):
         ops.append(("open",))
     approx = max(1, len(data) // max(1, nops))
     for _ in range(nops):
-        k = rng.choices(["read", "read_until", "rut", "discard", "close", "open"],
-                        weights=[5, 6, 4, 1, 0.6 if not wild else 2, 0.4 if not wild else 2])[0]
+        k = rng.choices(["read", "read_until", "rut", "discard", "close", "open", "write"],
+                        weights=[5, 6, 4, 1, 0.6 if not wild else 2, 0.4 if not wild else 2, 1.5])[0]
         tmo = rng.choice(TMOS)
         if rng.random() < 0.02:
             tmo = -1
@@ -529,6 +585,8 @@ def gen_ops(rng, data, nops, wild):
             ops.append((k, n, tmo))
         elif k == "read_until":
             ops.append((k, gen_term(rng, data), tmo))
+        elif k == "write":
+            ops.append((k, [rng.randrange(256) for _ in range(rng.choice([0, 1, 1, 2, 3, 6]))]))
         else:
             ops.append((k,))
     return ops
@@ -558,10 +616,28 @@ def gen_deadline_cases():
     out = []
     for kind in ("tcp", "udp", "serial"):
         for T in (5, 40):
-            for d in (T - 1, T, T + 1):
+            for d, rel in ((T - 1, "before"), (T, "at"), (T + 1, "after")):
                 ev = [("C", [65, 66], 2), ("C", [67, 59, 68], d - 2)]
                 for o in (("read", 4, T), ("read_until", [67, 59], T), ("rut", 4, T), ("rut", 3, T)):
-                    out.append((kind, ev, [("open",), o, ("rut", 9, 0)], "deadline"))
+                    out.append((kind, ev, [("open",), o, ("rut", 9, 0)], "deadline-" + rel))
+                    out.append((kind, ev, [("open",), o, ("read", 1, T), ("discard",), ("rut", 9, 0)],
+                                "deadline-" + rel))
+    return out
+
+
+def gen_poll_cases():
+    """Zero-timeout polling: data already waiting at the device (dt = 0), or turning up one tick after
+    the poll started (dt = 1); enough for the request, or only part of it."""
+    out = []
+    for kind in ("tcp", "udp", "serial"):
+        for dt, tag in ((0, "poll0-data-waiting"), (1, "poll0-data-just-after")):
+            for data in ([65, 66, 59, 67, 68], [65, 66]):
+                for split in (False, True):
+                    ev = ([("C", data[:1], dt), ("C", data[1:], 0)] if split else [("C", data, dt)])
+                    for o in (("read", 3, 0), ("read_until", [66, 59], 0), ("read_until", [66], 0),
+                              ("rut", 3, 0), ("rut", 9, 0)):
+                        out.append((kind, ev, [("open",), o, ("rut", 9, 0), ("rut", 9, 5)], tag))
+                        out.append((kind, ev, [("open",), o, o, o, ("rut", 9, 5)], tag))
     return out
 
 
@@ -594,7 +670,7 @@ def gen_cases(ck):
                       [("open",), ("read", 1, 5), ("read", 10, 5), ("read_until", [59], 10), ("discard",)], "big"))
     # exhaustive small scope: stream "AB;C", every packetisation into <=3 chunks, short op sequences
     small_ops = [("read", 1, 0), ("read", 3, 5), ("read_until", [66, 59], 5), ("read_until", [59], 0),
-                 ("rut", 2, 0), ("rut", 5, 5), ("discard",), ("close",), ("open",)]
+                 ("rut", 2, 0), ("rut", 5, 5), ("discard",), ("close",), ("open",), ("write", [7, 0, 255])]
     data = bytes([65, 66, 59, 67])
     splits = [[data], [data[:1], data[1:]], [data[:2], data[2:]], [data[:3], data[3:]],
               [data[:1], data[1:2], data[2:]], [data[:2], data[2:3], data[3:]]]
@@ -605,6 +681,7 @@ def gen_cases(ck):
                 for seq in itertools.product(small_ops, repeat=2):
                     cases.append((kind, ev, [("open",)] + list(seq), "exhaustive"))
     cases += gen_deadline_cases()
+    cases += gen_poll_cases()
     for _ in range(1500 if not thorough else 25000):
         kind = rng.choice(["tcp", "udp", "serial"])
         ev, ops = gen_realistic(rng, kind, thorough)
@@ -694,6 +771,16 @@ def run(ck):
             ck.count("result:" + r)
         for o in ops[:len(obs)]:
             ck.count("op:" + o[0])
+        if gk.startswith("deadline-") or gk.startswith("poll0-"):
+            ck.count("bucket:%s:%s:%s" % (gk, kind, ops[1][0]))
+        prev_nh = 0
+        for o, x in zip(ops, obs):
+            if o[0] in ("read", "read_until", "rut"):
+                if o[2] == 0 and x[3] > prev_nh:
+                    ck.count("dyn:poll0-received-data:%s:%s" % (kind, o[0]))
+                for m in set(x[4]):
+                    ck.count("dyn:data-%s-deadline:%s:%s" % (m, kind, o[0]))
+            prev_nh = x[3]
         ck.count("stream:%s" % ("0" if not handed else "1-9" if len(handed) < 10 else "10-99" if len(handed) < 100 else "100+"))
         known_only = bool(bad) and all(k == KNOWN_RUT_KEY for k, _ in bad)
         for key, what in bad:
